@@ -1,9 +1,9 @@
 SPECIFICATION FairSpec
 CONSTANTS
- Prog <- P_sig2
+ Prog <- P_sig5
  SemInit = 0
  SigInit = FALSE
  AllowSpurious = TRUE
- FixSignalGen = TRUE
+ FixSignalGen = FALSE
 INVARIANTS SetReleasesAll MutexOK SemOK MonitorOK UntimedWaitsSucceed
 PROPERTY Termination
